@@ -1,5 +1,5 @@
 CONSTANTS
-  Codec = "lp"
+  Codec = "lpe"
   Alpha = {}
   MaxLen = 0
   LpBad = 9
